@@ -212,6 +212,12 @@ class C16(Check):
                     'methods': [m(annot={**annot, 'errors': 'own', 'error_names': ['Custom2001', 'Custom2002', 'MethodNotFoundError'], 'prefix': 'P1'}),
                                 m(doc='none', annot={**annot, 'errors': 'own', 'error_names': ['Custom2002'], 'prefix': 'Pfx2'}),
                                 m(doc='none', annot={**annot, 'errors': 'none'}, alias=True)]})
+        # explicit result schemas / docstring extractor with DIFFERENT errors per method (error schemas are built from a shared template)
+        for ex in (['docstring'], ['base'], ['docstring', 'pydantic']):
+            out.append({'kind': 'openapi-3.1.0', 'extractors': ex, 'endpoints': 1, 'generations': 2, 'path': '/api', 'spec_opts': opts,
+                        'methods': [m(doc='none', annot={**annot, 'errors': 'own', 'error_names': ['Custom2001'], 'result_schema': True, 'params_schema': True}),
+                                    m(doc='none', annot={**annot, 'errors': 'own', 'error_names': ['Custom2002', 'SrvRange'], 'result_schema': True}),
+                                    m(doc='full', annot={**annot, 'errors': 'own', 'error_names': ['InvalidParamsError'], 'params_schema': True})]})
         return out
 
     # ---- building --------------------------------------------------------------------------------------------------
